@@ -165,9 +165,15 @@ func templateScenario(r *sim.Rand, g *world.Gen) []sim.Op {
 		ops = append(ops, sim.Op{K: "img", I: []int{0, 6, 6, 4242, 0, 0, 0, 0}, S: []sim.Str{"base.png", "a", "t"}, F: []float64{0, 0, 0, 0}})
 	}
 	n := r.Range(2, 3)
+	// some scenarios are a mail merge: one data object with one logo, reused for every render, only the variables set again
+	shared, picFmt := btoiP(r.Chance(0.35)), r.Intn(3)
 	for d := 1; d <= n; d++ {
-		data := &world.TData{Vars: map[string]any{"name": fmt.Sprintf("N%d", d), "city": "C", "title": "T"}, Images: map[string][]int{"pic": {r.Intn(3), 5, 5, 7000 + d}}}
-		ops = append(ops, sim.Op{K: "tpl.render", D: d, I: []int{0, 1, 0}, S: []sim.Str{sim.Str(data.JSON())}})
+		pic := []int{r.Intn(3), 5, 5, 7000 + d}
+		if shared == 1 {
+			pic = []int{picFmt, 5, 5, 7000}
+		}
+		data := &world.TData{Vars: map[string]any{"name": fmt.Sprintf("N%d", d), "city": "C", "title": "T"}, Images: map[string][]int{"pic": pic}}
+		ops = append(ops, sim.Op{K: "tpl.render", D: d, I: []int{0, 1, 0, shared}, S: []sim.Str{sim.Str(data.JSON())}})
 	}
 	var lists [][]sim.Op
 	for d := 1; d <= n; d++ {
